@@ -29,8 +29,8 @@ select.
 
 `updateBest` is modelled read by read (round 2; no abstraction of the choice): under the write lock the first loop
 reads `MasterHead()` of every member in order (each read needs that member's mutex) — `ubRead`; the selection loop
-reads `IsOK()` / `AverageRoundTrip()` of every member and, in the original code (`oneSnapshot = false`),
-`MasterHead()` AGAIN — `ubSel`; `ubSet` then stores exactly `PoolSelect.selectWith` applied to the maximum of the
+reads `IsOK()` of every member and, in the original code (`oneSnapshot = false`), `MasterHead()` and
+`AverageRoundTrip()` AGAIN — `ubSel` (the repaired code reads the round-trip times in the first loop too); `ubSet` then stores exactly `PoolSelect.selectWith` applied to the maximum of the
 first loop and to what the selection loop read. SetMasterHead callers may move heads between any two reads. With
 `notifySwitch` a change of the choice offers the new member's (snapshot) head to every waiter, still under the write
 lock. Liveness / round-trip time of a member are environment-controlled (`setAlive`, `setRtt`). Timer expiry and
@@ -70,11 +70,12 @@ inductive RunPc where
   | idle
   /-- tick received: at `p.mu.Lock()` of updateBest -/
   | ubWant
-  /-- first loop of updateBest: holding the write lock, about to call `conns[i].MasterHead()`; `seqs` = heads read -/
-  | ubRead (i : Nat) (seqs : List (BitVec 32))
+  /-- first loop of updateBest: holding the write lock, about to call `conns[i].MasterHead()` (and, repaired code,
+  `AverageRoundTrip()`); `seqs` / `rts` = heads / round-trip times read so far -/
+  | ubRead (i : Nat) (seqs : List (BitVec 32)) (rts : List Int)
   /-- selection loop: about to look at member `i` (IsOK, AverageRoundTrip and — original code — MasterHead again);
   `acc` = what the loop has read so far; `i = number of members`: about to store -/
-  | ubSel (i : Nat) (seqs : List (BitVec 32)) (acc : List Conn)
+  | ubSel (i : Nat) (seqs : List (BitVec 32)) (rts : List Int) (acc : List Conn)
   /-- update `(c, h)` received: at `p.mu.RLock()` of notifySubscribers -/
   | nWant (c h : Nat)
   /-- holding the read lock, at the `bestConn == nil` / `update.Conn.ID() != p.bestConn.ID()` test -/
@@ -214,28 +215,29 @@ def connFree (s : State) (c : Nat) : Bool := (s.connLock.getD c none).isNone
 def step (v : Variant) (s : State) : Action → Option State
   -- ---------------------------------------------------------------- Run: updateBest
   | .tick => if s.run = .idle then some { s with run := .ubWant } else none
-  | .ubLock => if s.run = .ubWant ∧ s.rw = .free then some { s with run := .ubRead 0 [], rw := .wrRun } else none
+  | .ubLock => if s.run = .ubWant ∧ s.rw = .free then some { s with run := .ubRead 0 [] [], rw := .wrRun } else none
   | .ubRead => match s.run with
-    | .ubRead i seqs =>
+    | .ubRead i seqs rts =>
       if i < s.heads.length then
-        if connFree s i then some { s with run := .ubRead (i + 1) (seqs ++ [BitVec.ofNat 32 (s.heads.getD i 0)]) }
+        if connFree s i then
+          some { s with run := .ubRead (i + 1) (seqs ++ [BitVec.ofNat 32 (s.heads.getD i 0)]) (rts ++ [s.rtt.getD i 0]) }
         else none
-      else some { s with run := .ubSel 0 seqs [] }
+      else some { s with run := .ubSel 0 seqs rts [] }
     | _ => none
   | .ubSel => match s.run with
-    | .ubSel i seqs acc =>
+    | .ubSel i seqs rts acc =>
       if i < s.heads.length then
         if v.oneSnapshot then
-          some { s with run := .ubSel (i + 1) seqs (acc ++ [Conn.mk i (s.alive.getD i false)
-            (seqs.getD i 0) (s.rtt.getD i 0)]) }
+          some { s with run := .ubSel (i + 1) seqs rts (acc ++ [Conn.mk i (s.alive.getD i false)
+            (seqs.getD i 0) (rts.getD i 0)]) }
         else if connFree s i then
-          some { s with run := .ubSel (i + 1) seqs (acc ++ [Conn.mk i (s.alive.getD i false)
+          some { s with run := .ubSel (i + 1) seqs rts (acc ++ [Conn.mk i (s.alive.getD i false)
             (BitVec.ofNat 32 (s.heads.getD i 0)) (s.rtt.getD i 0)]) }
         else none
       else none
     | _ => none
   | .ubSet => match s.run with
-    | .ubSel i seqs acc =>
+    | .ubSel i seqs _ acc =>
       if s.heads.length ≤ i then
         match selectWith false s.strategy (maxOfSeqs seqs) acc with
         | none => some { s with run := .idle, rw := .free }
